@@ -2,6 +2,7 @@ package c17
 
 import (
 	"fmt"
+	"sort"
 	"strings"
 	"testing"
 
@@ -20,7 +21,7 @@ const (
 	mBadType    = "bad_type"
 )
 
-// Known finding: `type: ""` reaches plugin.New's expect(name != "") and panics.
+// Finding (fixed in /repo 8e950c9): `type: ""` reached plugin.New's expect(name != "") and panicked.
 const findingEmptyType = "empty-plugin-type-panics"
 
 // Mut is one change of a valid configuration.
@@ -217,25 +218,46 @@ func genMut(r *vf.Run) func(t *rapid.T) MutCase {
 			if kind == mConstraint {
 				values = violations
 			}
+			// half of the time: a site first (as for the other kinds), then one of its fields; otherwise the
+			// value class first over the whole configuration, so that the rare classes (sizes, levels, lists,
+			// maps, unsigned) get their share
 			var cands []fieldAt
-			s := pickSite(func(s *cg.Site) bool {
+			if rapid.Bool().Draw(t, "siteFirst") {
+				s := pickSite(func(s *cg.Site) bool {
+					for _, f := range s.Fields {
+						if len(values(f)) > 0 {
+							return true
+						}
+					}
+					return false
+				})
 				for _, f := range s.Fields {
 					if len(values(f)) > 0 {
-						return true
+						cands = append(cands, fieldAt{s, f})
 					}
 				}
-				return false
-			})
-			for _, f := range s.Fields {
-				if len(values(f)) > 0 {
-					cands = append(cands, fieldAt{s, f})
+			} else {
+				byClass := map[string][]fieldAt{}
+				var classes []string
+				for _, s := range sites {
+					for _, f := range s.Fields {
+						if len(values(f)) == 0 {
+							continue
+						}
+						if len(byClass[f.Class]) == 0 {
+							classes = append(classes, f.Class)
+						}
+						byClass[f.Class] = append(byClass[f.Class], fieldAt{s, f})
+					}
 				}
+				sort.Strings(classes)
+				cands = byClass[classes[rapid.IntRange(0, len(classes)-1).Draw(t, "fclass")]]
 			}
 			c := cands[rapid.IntRange(0, len(cands)-1).Draw(t, "field")]
 			vs := values(c.f)
 			v := vs[rapid.IntRange(0, len(vs)-1).Draw(t, "bad")]
-			m.Site, m.Comp, m.Depth = s.PathString(), s.Comp.Label(), s.Depth
-			m.Op, m.Key, m.Value = "set", presentKey(s, c.f.Key), cg.Encode(v)
+			m.Site, m.Comp, m.Depth = c.s.PathString(), c.s.Comp.Label(), c.s.Depth
+			m.Op, m.Key, m.Value = "set", presentKey(c.s, c.f.Key), cg.Encode(v)
 		case mMissing:
 			s := pickSite(func(s *cg.Site) bool { return len(requiredPresent(s)) > 0 })
 			keys := requiredPresent(s)
@@ -369,20 +391,7 @@ func checkMut(c MutCase, o *vf.Obs) error {
 
 func TestMutations(t *testing.T) {
 	r := startRun(t)
-	witnessEmptyType(r)
+	witness(t, r, findingEmptyType, MutCase{Conf: witnessConf, Mut: Mut{Kind: mBadType, Site: "pools/0/ammo", Op: "set", Key: "type",
+		Value: `""`, Comp: "ammo/uri", Depth: 1}}, checkMut)
 	vf.Check(r, genMut(r), checkMut)
-}
-
-// witnessEmptyType re-checks the listed finding deterministically.
-func witnessEmptyType(r *vf.Run) {
-	conf := map[string]any{"pools": []any{map[string]any{
-		"gun":     map[string]any{"type": "http", "target": "127.0.0.1:80"},
-		"ammo":    map[string]any{"type": ""},
-		"result":  map[string]any{"type": "discard"},
-		"rps":     map[string]any{"type": "once", "times": 1},
-		"startup": map[string]any{"type": "once", "times": 1},
-	}}}
-	if res := decodeAll(conf); res.panicked {
-		r.KnownHit(findingEmptyType)
-	}
 }
